@@ -988,3 +988,64 @@ Proof.
   rewrite Hnf. rewrite (upload_commit_is_put sb (hp root (parent segs)) tmp (last segs ""%string) (stamp r) Hpar Hfresh chunks).
   symmetry. exact Ht.
 Qed.
+
+(** * 6. The workload of the correspondence check *)
+
+Definition answers_of (ops : list cop) (resps : list response) : list answer :=
+  map (fun or => answer_of (fst or) (snd or)) (combine ops resps).
+
+Lemma run_ops_run root c : forall ops s,
+  run_ops root c s ops =
+  (fst (run root s (map (req_of c) ops)), answers_of ops (snd (run root s (map (req_of c) ops)))).
+Proof.
+  induction ops as [|o ops IH]; intro s; [reflexivity|].
+  cbn [run_ops map run]. destruct (serve root s (req_of c o)) as [s1 resp] eqn:E. cbn [fst snd].
+  rewrite IH. destruct (run root s1 (map (req_of c) ops)) as [s2 resps]. reflexivity.
+Qed.
+
+Definition workload_progs (cs : list sclient) : list (tprog act result (list result)) :=
+  map (fun c => requests_prog (map (req_of (sc_coll c)) (sc_ops c))) cs.
+
+Lemma workload_wf root s0 cs :
+  workload_ok root s0 cs = true -> cwf (map sc_coll cs) (list result) (workload_progs cs, s0).
+Proof.
+  unfold workload_ok. intro H. apply andb_true_iff in H. destruct H as [H _].
+  apply andb_true_iff in H. destruct H as [_ H]. rewrite forallb_forall in H.
+  intros j p N. cbn [fst] in N. unfold workload_progs in N.
+  rewrite nth_error_map in N. destruct (nth_error cs j) as [c|] eqn:NC; [|discriminate].
+  inversion N; subst p. unfold requests_prog.
+  specialize (H c (nth_error_In _ _ NC)). apply andb_true_iff in H. destruct H as [_ H].
+  apply of_list_owned with (c := sc_coll c).
+  - rewrite nth_error_map, NC. reflexivity.
+  - rewrite forallb_forall in *. intros r IN. apply in_map_iff in IN. destruct IN as (o & <- & IN). auto.
+Qed.
+
+(** What the oracle assumes when it compares the CONCURRENT observation of a client
+    with [run_ops] of that client ALONE: whatever interleaving of the clients' requests
+    the scheduler produced (any schedule in which client i got to issue all its
+    requests; the others may be anywhere, finished or stalled), client i received the
+    responses whose projections are [snd (run_ops ...)], and its collection ended as
+    the subtree [run_ops] leaves there. *)
+Theorem workload_any_interleaving root s0 cs i c sched :
+  workload_ok root s0 cs = true -> nth_error cs i = Some c ->
+  List.length (sc_ops c) <= count_occ Nat.eq_dec sched i ->
+  let g := trun (act_step root) (workload_progs cs, s0) sched in
+  exists resps,
+    nth_error (fst g) i = Some (TRet (map RResp resps)) /\
+    answers_of (sc_ops c) resps = snd (run_ops root (sc_coll c) s0 (sc_ops c)) /\
+    geto (snd g) (root ++ sc_coll c) = geto (fst (run_ops root (sc_coll c) s0 (sc_ops c))) (root ++ sc_coll c).
+Proof.
+  intros W NC LE g. pose proof (workload_wf root s0 cs W) as WF.
+  unfold workload_ok in W. apply andb_true_iff in W. destruct W as [W _].
+  apply andb_true_iff in W. destruct W as [PI F]. rewrite forallb_forall in F.
+  specialize (F c (nth_error_In _ _ NC)). apply andb_true_iff in F. destruct F as [K _].
+  assert (N1 : nth_error (map sc_coll cs) i = Some (sc_coll c)) by (rewrite nth_error_map, NC; reflexivity).
+  assert (N2 : nth_error (workload_progs cs) i = Some (requests_prog (map (req_of (sc_coll c)) (sc_ops c))))
+    by (unfold workload_progs; rewrite nth_error_map, NC; reflexivity).
+  assert (LE' : List.length (map (req_of (sc_coll c)) (sc_ops c)) <= count_occ Nat.eq_dec sched i)
+    by (rewrite map_length; exact LE).
+  destruct (serve_any_interleaving_alone root (map sc_coll cs) PI (workload_progs cs) s0 i (sc_coll c) _ sched
+              WF N1 N2 K LE') as [A B].
+  exists (snd (run root s0 (map (req_of (sc_coll c)) (sc_ops c)))).
+  rewrite run_ops_run. cbn [fst snd]. auto.
+Qed.
